@@ -213,6 +213,24 @@ def _impl(tier, seed, search):
                 if ok_:
                     okm_, why_ = holds_only_members(X_, type(X_).__name__)
                     L.check(f'class-constructor(grid):{nm_}:member', okm_, dict(constructor=nm_, angle=ang_), f'{nm_} holds a non-member ({why_})', sig='class-constructor(grid)')
+        # rotations next to a half turn (pi - 1e-5 .. pi - 3e-8, any axis) converted to a unit quaternion: the object holds a unit quaternion
+        if it < 12:
+            axh_ = [np.array([1.0, 0, 0]), np.array([0, 1.0, 0]), np.array([1.0, 2.0, -2.0]) / 3.0, inputs.unit_axis(g)][it % 4]; dh_ = (1e-5, 1e-6, 3e-8)[it // 4]; Rh_ = inputs.rodrigues(axh_, math.pi - dh_); Th_ = b.r2t(Rh_)
+            for nm_, mk_ in (('UnitQuaternion(R)', lambda: UnitQuaternion(Rh_)), ('UnitQuaternion(SO3(R))', lambda: UnitQuaternion(SO3(Rh_, check=False))), ('UnitQuaternion(T)', lambda: UnitQuaternion(Th_)), ('UnitQuaternion(SE3)', lambda: UnitQuaternion(SE3(Th_, check=False)))):
+                ok_, Xq_ = L.noraise(f'{nm_}(near half turn)', mk_, dict(axis=axh_, pi_minus=dh_), f'{nm_} for a rotation next to a half turn', sig='UQ(near half turn):raises')
+                if ok_:
+                    nrm_ = float(np.linalg.norm(np.asarray(Xq_.data[0], float)))
+                    L.check(f'{nm_}(near half turn):unit', abs(nrm_ - 1.0) <= 1e-6 and bool(b.isunit(np.asarray(Xq_.data[0], float), tol=1e10)), dict(axis=axh_, pi_minus=dh_), f'{nm_} for a rotation {dh_:g} rad from a half turn holds a quaternion of norm {nrm_:.9f}', sig='UQ(near half turn):unit')
+        # list operations with an object of a subclass (a rigid motion offered to a rotation object): refused, or at least never stored as it is
+        if it % 8 == 0:
+            for cn_, Rcls_, Tcls_, mkr_, mkt_ in (('SO3', SO3, SE3, lambda: inputs.so3(g), lambda: inputs.se3(g, 1)), ('SO2', SO2, SE2, lambda: inputs.so2(g), lambda: inputs.se2(g, 1))):
+                for opn_, op_ in (('insert', lambda X_, Y_: X_.insert(0, Y_)), ('append', lambda X_, Y_: X_.append(Y_)), ('extend', lambda X_, Y_: X_.extend(Y_)), ('setitem', lambda X_, Y_: X_.__setitem__(0, Y_))):
+                    Xr_ = Rcls_([mkr_(), mkr_()]); Yt_ = Tcls_(mkt_())
+                    L.count('list-op(subclass)', key=(cn_, opn_))
+                    try: op_(Xr_, Yt_)
+                    except Exception: continue
+                    okm_, why_ = holds_only_members(Xr_, cn_) if all(np.shape(a_) == np.shape(Xr_.data[-1]) and np.shape(a_)[0] == (3 if cn_ == 'SO3' else 2) for a_ in Xr_.data) else (False, 'an element of the wrong shape')
+                    if not okm_: L.fail(f'list-op-accepts:{cn_}:{opn_}', f'{cn_}.{opn_} with a {Tcls_.__name__} object stored a value that is not a member of {cn_} ({why_})', dict(cls=cn_, op=opn_))
         # a bare 3x3 array that is not a rotation matrix is not turned into a unit quaternion either
         if it % 4 == 0:
             for kind, Bad in defects('SO3', good('SO3')):
